@@ -216,7 +216,7 @@ func checkC08(c *Ctx) {
 	}
 
 	// ---- C08.3 expiry rule
-	r.Rule("C08.3", "expiry condition is (unused && age>unused-timeout) || age>active-timeout with 10 min / 6 h", 4)
+	r.Rule("C08.3", "expiry condition is (unused && age>unused-timeout) || age>active-timeout with 10 min / 6 h; every sweep examines every record", 5)
 	if f := c.fn("C08.3", "pkg/station/lib", "RegisteredDecoys", "getExpiredRegistrations"); f != nil {
 		// loop body = block after the range `next` test; header = the block holding `next`
 		var header *ssa.BasicBlock
@@ -232,6 +232,14 @@ func checkC08(c *Ctx) {
 		if header == nil || len(header.Succs) != 2 {
 			r.Unk("C08.3", "getExpiredRegistrations: range over decoysTimeouts", f.Pos(), fnName(f), "loop over the timeout map not found")
 		} else {
+			// every sweep examines every record: no return is reachable without entering the loop header
+			skip, w := reach(f, nil, isReturn, func(in ssa.Instruction) bool { return in.Block() == header }, nil)
+			if skip {
+				r.Bad("C08.3", "getExpiredRegistrations: a sweep can return without examining the records", f.Pos(), fnName(f),
+					"a path returns before the loop over the timeout records: on such sweeps expired registrations are kept (they keep matching connections and tracked state is no longer bounded by the registration rate)", r.blockPath(f, w)...)
+			} else {
+				r.OK("C08.3", "getExpiredRegistrations: every sweep iterates over all timeout records", f.Pos(), "no return reachable without passing the loop header")
+			}
 			body := header.Succs[0]
 			unusedVal := constIntOf(c.P, repoMod+"/pkg/station/lib", "regStatusUnused")
 			classify := func(cnd string) (string, bool, bool) {
@@ -268,7 +276,7 @@ func checkC08(c *Ctx) {
 				}
 				return "", false, false
 			}
-			outcome := func(in ssa.Instruction, b *ssa.BasicBlock, idx int) string {
+			outcome := func(in ssa.Instruction, b *ssa.BasicBlock, idx int, _ *ssa.BasicBlock, _ map[string]bool) string {
 				if b == header && idx == 0 {
 					return "keep"
 				}
